@@ -70,7 +70,7 @@ type maskSpec struct {
 // (differs at one unmasked leaf) must fail with exactly one Error and write nothing.
 func checkC16(c *vkit.Ctx) {
 	c.P.Rule = "case = (document, 1-3 masked paths each with Any / Type of the value's type / accepting Custom, entry point MatchJSON|MatchStandaloneJSON|MatchYAML); D2 re-draws every masked value (same JSON kind, different content incl. non-ASCII and quotes), D3 changes one leaf that is neither under nor above a masked path; record D1, then D2 must pass and write nothing, D3 must produce exactly one Error with update disabled and write nothing; non-trivial = every judged triple; distinct by hash(document, masks, api)"
-	n := c.N(6000, 200000)
+	n := c.N(50000, 1500000)
 	for i := 0; i < n; i++ {
 		if !c.Mine(i) {
 			continue
@@ -180,43 +180,78 @@ func runC16(c *vkit.Ctx, r *rand.Rand, i int) {
 	root := vkit.MkScratch("c16")
 	defer os.RemoveAll(root)
 	snaps.VerifSetNoColor(true)
-	call := func(doc string, upd *bool) (string, vkit.Signals) {
+	// matchers are built ONCE and reused for every call of the case, the way a
+	// package-level matcher variable or a table-driven test uses them
+	lenient := r.IntN(3) == 0
+	group := r.IntN(2) == 0
+	var jms []match.JSONMatcher
+	var yms []match.YAMLMatcher
+	var anyPaths []string
+	for k, s := range specs {
+		if group && s.Kind == "any" {
+			anyPaths = append(anyPaths, s.PathS)
+			continue
+		}
+		ms := mSpec{Kind: s.Kind, PathS: s.PathS, PH: s.PH, Lenient: lenient}
+		if yaml {
+			m, _, ok := buildYAMLMatcher(ms, d1.At(masked[k]))
+			if !ok {
+				panic("harness: cannot build matcher")
+			}
+			yms = append(yms, m)
+		} else {
+			m, _, ok := buildJSONMatcher(ms, d1.At(masked[k]))
+			if !ok {
+				panic("harness: cannot build matcher")
+			}
+			jms = append(jms, m)
+		}
+	}
+	if len(anyPaths) > 0 {
+		// one Any matcher carrying several paths
+		m := match.Any(anyPaths...).Placeholder(pick2[any](r, "<grouped>", "<gröuped>", "g \"q\" \\", 7)).ErrOnMissingPath(!lenient)
+		jms = append(jms, m)
+		yms = append(yms, m)
+	}
+	in["matchers_reused"], in["lenient"], in["grouped_any_paths"] = true, lenient, anyPaths
+	callTo := func(file, doc string, upd *bool) (string, vkit.Signals) {
 		snaps.VerifResetProcessState()
 		t := vkit.NewT("TestMask")
-		opts := []func(*snaps.Config){snaps.Dir(root), snaps.Filename("mask")}
+		opts := []func(*snaps.Config){snaps.Dir(root), snaps.Filename(file)}
 		if upd != nil {
 			opts = append(opts, snaps.Update(*upd))
 		}
 		cfg := snaps.WithConfig(opts...)
 		switch api {
 		case "yaml":
-			var ms []match.YAMLMatcher
-			for k, s := range specs {
-				m, _, ok := buildYAMLMatcher(mSpec{Kind: s.Kind, PathS: s.PathS, PH: s.PH}, d1.At(masked[k]))
-				if !ok {
-					panic("harness: cannot build matcher")
-				}
-				ms = append(ms, m)
-			}
-			cfg.MatchYAML(t, doc, ms...)
+			cfg.MatchYAML(t, doc, yms...)
+		case "json":
+			cfg.MatchJSON(t, doc, jms...)
 		default:
-			var ms []match.JSONMatcher
-			for k, s := range specs {
-				m, _, ok := buildJSONMatcher(mSpec{Kind: s.Kind, PathS: s.PathS, PH: s.PH}, d1.At(masked[k]))
-				if !ok {
-					panic("harness: cannot build matcher")
-				}
-				ms = append(ms, m)
-			}
-			if api == "json" {
-				cfg.MatchJSON(t, doc, ms...)
-			} else {
-				cfg.MatchStandaloneJSON(t, doc, ms...)
-			}
+			cfg.MatchStandaloneJSON(t, doc, jms...)
 		}
 		sig := t.Take()
 		t.Finish()
 		return vkit.Classify(sig), sig
+	}
+	call := func(doc string, upd *bool) (string, vkit.Signals) { return callTo("mask", doc, upd) }
+	if lenient {
+		// warm-up on a document that lacks one of the masked paths (allowed: the matchers
+		// ignore missing paths); it must not change what the matchers do afterwards
+		d0 := d1.Clone()
+		if d0.Delete(masked[r.IntN(len(masked))]) {
+			t0 := render(d0)
+			ok0 := true
+			if yaml {
+				docs, err := vkit.ParseYAMLDocs(t0)
+				ok0 = err == nil && len(docs) == 1
+			}
+			if ok0 {
+				snaps.VerifSetMode(false, "")
+				callTo("warm", t0, nil)
+				c.Count("lenient_warmups", 1)
+			}
+		}
 	}
 	snaps.VerifSetMode(false, "")
 	if o, sig := call(t1, nil); o != vkit.Added {
